@@ -6,9 +6,9 @@ from ..engine import Outcome, Verdict, crash_verdicts, infra_problem, shrink_lis
 ID = "C10"
 RULE = ("case = allocation/drop history over a root table (bursty phases with different size mixes: pairs, vectors up to multi-chunk, "
         "strings with 1-4-byte characters, bytevectors, bignums, flonums, records, closures, continuations, string ports, file ports, "
-        "hash tables, thread objects) + collection points (natural, and forced at tape-chosen allocations) + initial heap size. "
+        "hash tables, thread objects, ephemeron chains with a heap segment added behind them; ramps and a high-volume ramp-only family for the growth bound) + collection points (natural, and forced at tape-chosen allocations) + initial heap size. "
         "After EVERY collection the simulator walks every segment (exact tiling, sorted disjoint free list, clear mark bits, every "
-        "reference slot -> start of a live object of this context), checks conservation (bytes surviving the sweep == bytes the mark phase "
+        "reference slot, weak slot and ephemeron value -> start of a live object of this context), checks conservation (bytes surviving the sweep == bytes the mark phase "
         "reached; live+free+sentinels == total) and the growth bound (histories include ramps: a buffer re-allocated slightly larger each round).  Non-trivial: >= 3 collections checked and >= 2000 allocations; "
         "distinct = distinct event-log hashes.")
 ASSUMPTIONS = [
